@@ -553,6 +553,7 @@ func check(run *stats.Run, f stats.Failer, c Case) verdict {
 		run.Failf(f, "print→parse does not return the same %s: printed %q; %v", c.Kind, clip(printed), err)
 	}
 	v := verdict{labels: []string{"kind:" + c.Kind}}
+	ft.depths(c)
 	for l := range ft {
 		v.labels = append(v.labels, l)
 	}
@@ -633,6 +634,86 @@ func (ft features) bt(b BT, depth int) {
 		for _, a := range b.Args {
 			ft.bt(a, depth+1)
 		}
+	}
+}
+
+// fnNesting is the number of function applications on the longest path of b; constDepth the deepest
+// constant inside b.
+func fnNesting(b BT) (fns, constDepth int) {
+	if b.C != nil {
+		return 0, b.C.Depth()
+	}
+	if b.Fn == "" {
+		return 0, 0
+	}
+	for _, a := range b.Args {
+		f, c := fnNesting(a)
+		fns, constDepth = max(fns, f), max(constDepth, c)
+	}
+	return fns + 1, constDepth
+}
+
+func bucket(prefix string, n, lo, hi int) string {
+	if n < lo {
+		return ""
+	}
+	if n >= hi {
+		return fmt.Sprintf("%s>=%d", prefix, hi)
+	}
+	return fmt.Sprintf("%s%d", prefix, n)
+}
+
+// depths labels how deep the linked / recursive parts of the case go: transform stages, nested function
+// applications, nested type constructors, nested constants.
+func (ft features) depths(c Case) {
+	fns, cd, stages, stmts := 0, 0, 0, 0
+	see := func(b BT) {
+		f, d := fnNesting(b)
+		fns, cd = max(fns, f), max(cd, d)
+	}
+	lit := func(l Lit) {
+		for _, a := range l.Args {
+			see(a)
+		}
+		if l.L != nil {
+			see(*l.L)
+			see(*l.R)
+		}
+	}
+	switch c.Kind {
+	case kConst:
+		cd = c.Const.Depth()
+	case kAtom:
+		lit(*c.Atom)
+	case kType:
+		f, d := fnNesting(*c.Type)
+		cd = d
+		if l := bucket("type-depth:", f, 1, 6); l != "" {
+			ft[l] = true
+		}
+	case kClause:
+		lit(c.Clause.Head)
+		for _, l := range c.Clause.Body {
+			lit(l)
+		}
+		if len(c.Clause.Body) > 0 {
+			for t := c.Clause.Tr; t != nil; t = t.Next {
+				stages++
+				stmts = max(stmts, len(t.Stmts))
+				for _, st := range t.Stmts {
+					see(st.Fn)
+				}
+			}
+		}
+	}
+	for _, l := range []string{bucket("transform-stages:", stages, 1, 5), bucket("transform-statements-per-stage:", stmts, 2, 4),
+		bucket("fn-nesting:", fns, 2, 6), bucket("const-depth:", cd, 2, 7)} {
+		if l != "" {
+			ft[l] = true
+		}
+	}
+	if stages >= 2 || fns >= 2 || cd >= 2 {
+		ft["nesting>=2"] = true
 	}
 }
 
@@ -724,8 +805,8 @@ func (ft features) clause(c Clause) {
 // Generators.
 
 var (
-	full      = val.Options{MaxDepth: 3}
-	argConsts = val.Options{MaxDepth: 2}
+	full      = val.Options{MaxDepth: 4}
+	argConsts = val.Options{MaxDepth: 3}
 	variables = []string{"X", "Y", "Z", "Xs", "Foo1", "T", "_"}
 	boundVars = []string{"S", "E", "T", "T1", "Xs"}
 	predNames = []string{"p", "q", "r", "foo", "foo.bar", "a:b", "p_1", "bar_baz", "e2"}
@@ -744,8 +825,51 @@ var tricky = []val.V{
 	val.St([2]val.V{val.N("/a"), val.L(val.I(-1))}), val.P(val.I(-1), val.F(-2)), val.L(), val.M(), val.St(),
 }
 
+// deepen wraps v into k more levels; the spine runs through list elements, pair components, map keys
+// (structured keys), map values and struct fields.
+func deepen(t *rapid.T, v val.V, k int) val.V {
+	sib := func() val.V { return val.GenScalar(val.Options{}).Draw(t, "sibling") }
+	for i := 0; i < k; i++ {
+		switch rapid.IntRange(0, 7).Draw(t, "spine") {
+		case 0:
+			v = val.L(v)
+		case 1:
+			v = val.L(sib(), v, sib())
+		case 2:
+			v = val.P(v, sib())
+		case 3:
+			v = val.P(sib(), v)
+		case 4:
+			v = val.M([2]val.V{v, sib()})
+		case 5:
+			v = val.M([2]val.V{sib(), v})
+		case 6: // two entries, one with a structured key
+			other := val.S("k")
+			if other.Key() == v.Key() {
+				other = val.I(0)
+			}
+			v = val.M([2]val.V{v, sib()}, [2]val.V{other, v})
+		default:
+			v = val.St([2]val.V{val.N(rapid.SampledFrom([]string{"/a", "/b", "/x/y"}).Draw(t, "field")), v})
+		}
+	}
+	return v
+}
+
+func genDeepValue(t *rapid.T) val.V {
+	var v val.V
+	if rapid.Bool().Draw(t, "trickyLeaf") {
+		v = rapid.SampledFrom(tricky).Draw(t, "tricky")
+	} else {
+		v = val.Gen(val.Options{MaxDepth: 1}).Draw(t, "deepleaf")
+	}
+	return deepen(t, v, rapid.IntRange(2, 5).Draw(t, "levels"))
+}
+
 func genValue(t *rapid.T, o val.Options) val.V {
-	switch k := rapid.IntRange(0, 11).Draw(t, "value"); {
+	switch k := rapid.IntRange(0, 12).Draw(t, "value"); {
+	case k == 12:
+		return genDeepValue(t)
 	case k <= 1:
 		return rapid.SampledFrom(tricky).Draw(t, "tricky")
 	case k <= 7:
@@ -768,14 +892,37 @@ func genNameConst(t *rapid.T) BT {
 func genVar(t *rapid.T) BT { return BT{Var: rapid.SampledFrom(variables).Draw(t, "var")} }
 
 func genBT(t *rapid.T, depth int) BT {
-	switch k := rapid.IntRange(0, 9).Draw(t, "bt"); {
+	switch k := rapid.IntRange(0, 10).Draw(t, "bt"); {
 	case k <= 3:
 		return genVar(t)
 	case k <= 7 || depth <= 0:
 		return genConst(t, argConsts)
+	case k == 10 && depth >= 2:
+		return genFnSpine(t, rapid.IntRange(2, 5).Draw(t, "fnlevels"))
 	default:
 		return genFn(t, depth-1)
 	}
+}
+
+// genFnSpine nests exactly k function applications, the nested one at a random argument position.
+func genFnSpine(t *rapid.T, k int) BT {
+	b := BT{Fn: rapid.SampledFrom(funNames).Draw(t, "fn")}
+	var inner BT
+	if k <= 1 {
+		inner = genConst(t, argConsts)
+	} else {
+		inner = genFnSpine(t, k-1)
+	}
+	before := rapid.IntRange(0, 2).Draw(t, "before")
+	after := rapid.IntRange(0, 1).Draw(t, "after")
+	for i := 0; i < before; i++ {
+		b.Args = append(b.Args, genBT(t, 0))
+	}
+	b.Args = append(b.Args, inner)
+	for i := 0; i < after; i++ {
+		b.Args = append(b.Args, genBT(t, 0))
+	}
+	return b
 }
 
 func genFn(t *rapid.T, depth int) BT {
@@ -791,7 +938,7 @@ func genAtom(t *rapid.T, pred string, kind string) Lit {
 	l := Lit{K: kind, Pred: pred}
 	n := rapid.IntRange(0, 3).Draw(t, "arity")
 	for i := 0; i < n; i++ {
-		l.Args = append(l.Args, genBT(t, 2))
+		l.Args = append(l.Args, genBT(t, 3))
 	}
 	return l
 }
@@ -891,7 +1038,8 @@ func genLit(t *rapid.T) Lit {
 	}
 }
 
-func genTrans(t *rapid.T, allowNext bool) *Trans {
+// genStage draws one transform: "do fn:group_by(..), let .." or "let .., let ..".
+func genStage(t *rapid.T) *Trans {
 	tr := &Trans{}
 	if rapid.Bool().Draw(t, "do") {
 		do := BT{Fn: "fn:group_by"}
@@ -900,7 +1048,7 @@ func genTrans(t *rapid.T, allowNext bool) *Trans {
 			do.Args = append(do.Args, genVar(t))
 		}
 		tr.Stmts = append(tr.Stmts, Stmt{Fn: do})
-		n = rapid.IntRange(0, 2).Draw(t, "reducers")
+		n = rapid.IntRange(0, 3).Draw(t, "reducers")
 		for i := 0; i < n; i++ {
 			fn := BT{Fn: rapid.SampledFrom(reducers).Draw(t, "reducer")}
 			if fn.Fn != "fn:count" {
@@ -909,15 +1057,29 @@ func genTrans(t *rapid.T, allowNext bool) *Trans {
 			tr.Stmts = append(tr.Stmts, Stmt{Var: rapid.SampledFrom(variables[:6]).Draw(t, "letvar"), Fn: fn})
 		}
 	} else {
-		n := rapid.IntRange(1, 2).Draw(t, "lets")
+		n := rapid.IntRange(1, 3).Draw(t, "lets")
 		for i := 0; i < n; i++ {
-			tr.Stmts = append(tr.Stmts, Stmt{Var: rapid.SampledFrom(variables[:6]).Draw(t, "letvar"), Fn: genFn(t, 1)})
+			fn := genFn(t, 2)
+			if rapid.IntRange(0, 5).Draw(t, "deepfn") == 0 {
+				fn = genFnSpine(t, rapid.IntRange(2, 5).Draw(t, "fnlevels"))
+			}
+			tr.Stmts = append(tr.Stmts, Stmt{Var: rapid.SampledFrom(variables[:6]).Draw(t, "letvar"), Fn: fn})
 		}
 	}
-	if allowNext && rapid.IntRange(0, 4).Draw(t, "chain") == 0 {
-		tr.Next = genTrans(t, false)
-	}
 	return tr
+}
+
+// genTrans draws a chain of 1-4 transforms ("|> .. |> .. |> .."); the grammar allows a do- or a
+// let-transform at every stage.
+func genTrans(t *rapid.T) *Trans {
+	stages := rapid.SampledFrom([]int{1, 1, 1, 1, 2, 2, 3, 3, 4, 4}).Draw(t, "stages")
+	first := genStage(t)
+	last := first
+	for i := 1; i < stages; i++ {
+		last.Next = genStage(t)
+		last = last.Next
+	}
+	return first
 }
 
 func genClause(t *rapid.T) Clause {
@@ -933,7 +1095,7 @@ func genClause(t *rapid.T) Clause {
 		c.Body = append(c.Body, genLit(t))
 	}
 	if rapid.IntRange(0, 9).Draw(t, "transform") < 4 {
-		c.Tr = genTrans(t, true)
+		c.Tr = genTrans(t)
 	}
 	return c
 }
@@ -1011,19 +1173,68 @@ func genType(t *rapid.T, depth int) BT {
 	}
 }
 
+// deepenType wraps the type expression b into k more constructors at varying argument positions.
+func deepenType(t *rapid.T, b BT, k int) BT {
+	leaf := func() BT {
+		n := val.N(rapid.SampledFrom(baseTypes).Draw(t, "base"))
+		return BT{C: &n}
+	}
+	label := func() BT {
+		n := val.N(rapid.SampledFrom([]string{"/a", "/b", "/kind"}).Draw(t, "label"))
+		return BT{C: &n}
+	}
+	for i := 0; i < k; i++ {
+		switch rapid.IntRange(0, 12).Draw(t, "wrap") {
+		case 0:
+			b = BT{Fn: symbols.ListType.Symbol, Args: []BT{b}}
+		case 1:
+			b = BT{Fn: symbols.OptionType.Symbol, Args: []BT{b}}
+		case 2:
+			b = BT{Fn: symbols.MapType.Symbol, Args: []BT{leaf(), b}}
+		case 3:
+			b = BT{Fn: symbols.MapType.Symbol, Args: []BT{b, leaf()}}
+		case 4:
+			b = BT{Fn: symbols.PairType.Symbol, Args: []BT{b, leaf()}}
+		case 5:
+			b = BT{Fn: symbols.StructType.Symbol, Args: []BT{label(), leaf(), label(), b}}
+		case 6:
+			b = BT{Fn: symbols.StructType.Symbol, Args: []BT{{Fn: symbols.Optional.Symbol, Args: []BT{label(), b}}}}
+		case 7:
+			b = BT{Fn: symbols.FunType.Symbol, Args: []BT{b, leaf()}}
+		case 8:
+			b = BT{Fn: symbols.FunType.Symbol, Args: []BT{leaf(), leaf(), b}}
+		case 9:
+			b = BT{Fn: symbols.UnionType.Symbol, Args: []BT{leaf(), b}}
+		case 10:
+			b = BT{Fn: symbols.TupleType.Symbol, Args: []BT{leaf(), b, leaf()}}
+		case 11:
+			b = BT{Fn: symbols.RelType.Symbol, Args: []BT{b, leaf()}}
+		default:
+			b = BT{Fn: symbols.TaggedUnionType.Symbol, Args: []BT{label(), label(), {Fn: symbols.StructType.Symbol, Args: []BT{label(), b}}}}
+		}
+	}
+	return b
+}
+
 func genCase(t *rapid.T) Case {
 	switch k := rapid.IntRange(0, 11).Draw(t, "kind"); {
 	case k <= 2:
 		v := val.Gen(full).Draw(t, "const")
-		if rapid.IntRange(0, 5).Draw(t, "mixed") == 0 {
+		switch rapid.IntRange(0, 7).Draw(t, "mixed") {
+		case 0:
 			v = genValue(t, full)
+		case 1:
+			v = genDeepValue(t)
 		}
 		return Case{Kind: kConst, Const: &v}
 	case k == 3:
 		a := genAtom(t, genPred(t), lAtom)
 		return Case{Kind: kAtom, Atom: &a}
 	case k == 4:
-		ty := genType(t, 3)
+		ty := genType(t, 4)
+		if rapid.IntRange(0, 2).Draw(t, "deeptype") == 0 {
+			ty = deepenType(t, genType(t, 2), rapid.IntRange(2, 5).Draw(t, "typelevels"))
+		}
 		return Case{Kind: kType, Type: &ty}
 	default:
 		c := genClause(t)
